@@ -444,3 +444,127 @@ def run_entry_output_fresh(prog, tier, repo):
             res.ok(key, b.loc(t[7]), 'stored text is built inside the iteration or not appended to in the loop')
     res.floor('per-entry outputs stored in the loop', n, 2)
     return [res]
+
+
+# ---------------------------------------------------------------------------------------------------------------------
+# CALL-ALWAYS-EMITTED (C04, C01): a call statement has effects (runtime functions mutate vectors, print, trap), whether or
+# not its result is used. Both back ends must therefore emit a call for every `Call` statement. For the WebAssembly
+# lowering: every path through the `Call` arm of the statement lowering builds a call instruction.
+
+def run_call_always_emitted(prog, tier, repo):
+    from ..tables import enum_switches
+    from ..cfg import cfg_of
+    from ..facts import strip_refs
+    res = RuleResult('CALL-ALWAYS-EMITTED', 'C04: the WebAssembly lowering emits a call instruction for every call statement, on every '
+                     'path (a call whose result is discarded still has its effects)')
+    stmt = [a for a in prog.adts.values() if a.name == 'samlang_ast::lir::Statement']
+    if len(stmt) != 1:
+        res.cannot_decide('lir::Statement')
+        return [res]
+    stmt = stmt[0]
+    call_v = [i for i, v in enumerate(stmt.variants) if v.name == 'Call']
+    if not call_v:
+        res.cannot_decide('the Call variant of lir::Statement')
+        return [res]
+    call_v = call_v[0]
+    n = 0
+    for b in prog.bodies.values():
+        if b.crate != 'samlang_compiler' or '::wasm_lowering::' not in b.name + '::' or b.kind == 'closure':
+            continue
+        if not any(strip_refs(b.locals[i]).k == 'adt' and strip_refs(b.locals[i]).id == stmt.id for i in range(1, b.nargs + 1)):
+            continue
+        cfg = cfg_of(b)
+        for tb in enum_switches(prog, b, stmt.id):
+            if call_v not in tb.arms:
+                continue
+            n += 1
+            emit = set()
+            for bi, bl in enumerate(b.blocks):
+                if bl.cleanup:
+                    continue
+                for st in bl.stmts:
+                    if st[0] == 'a' and st[2][0] == 'agg' and st[2][1][0] == 'adt' and st[2][1][1].endswith('wasm::InlineInstruction') \
+                            and st[2][1][3] in ('DirectCall', 'IndirectCall'):
+                        emit.add(bi)
+                # closures built here that construct the call (map over arguments etc.) count at their construction site
+                for st in bl.stmts:
+                    if st[0] == 'a' and st[2][0] == 'agg' and st[2][1][0] == 'closure':
+                        cb = prog.bodies.get(st[2][1][1])
+                        if cb and any(s2[0] == 'a' and s2[2][0] == 'agg' and s2[2][1][0] == 'adt' and s2[2][1][1].endswith('wasm::InlineInstruction')
+                                      and s2[2][1][3] in ('DirectCall', 'IndirectCall') for bl2 in cb.blocks for s2 in bl2.stmts):
+                            pass
+            key = f'call-arm:{b.name}'
+            # ... and what the arm returns is built from such an instruction: every definition of the return value inside the
+            # arm derives (through wrappers, vec!, set(..)) from a call-instruction local
+            from ..cfg import def_sites
+            call_locals = set()
+            for bi in emit:
+                for st in b.blocks[bi].stmts:
+                    if st[0] == 'a' and st[2][0] == 'agg' and st[2][1][0] == 'adt' and st[2][1][1].endswith('wasm::InlineInstruction') \
+                            and st[2][1][3] in ('DirectCall', 'IndirectCall'):
+                        call_locals.add(st[1].local)
+            region = cfg.reachable(tb.arms[call_v])
+            others = set()
+            for v2, tg in tb.arms.items():
+                if v2 != call_v and tg is not None:
+                    others |= cfg.reachable(tg)
+            region = region - others
+
+            def derives(l, seen):
+                if l in call_locals:
+                    return True
+                if l in seen or len(seen) > 300:
+                    return False
+                seen.add(l)
+                for d in def_sites(b).get(l, []):
+                    if b.blocks[d[0]].cleanup:
+                        continue
+                    ops_ = list(d[2][3]) if d[1] == 'term' else ([d[2][1]] if d[2][0] in ('use',) else ([d[2][2]] if d[2][0] == 'cast' else (list(d[2][2]) if d[2][0] == 'agg' else [])))
+                    if d[1] != 'term' and d[2][0] == 'ref' and derives(d[2][2].local, seen):
+                        return True
+                    for o in ops_:
+                        if isinstance(o, tuple) and o and o[0] in ('c', 'm') and derives(o[1].local, seen):
+                            return True
+                for bl in b.blocks:
+                    if bl.cleanup:
+                        continue
+                    for st in bl.stmts:
+                        if st[0] == 'a' and st[1].proj and st[1].local == l:
+                            rv = st[2]
+                            for o in ([rv[1]] if rv[0] == 'use' else (list(rv[2]) if rv[0] == 'agg' else [])):
+                                if o[0] in ('c', 'm') and derives(o[1].local, seen):
+                                    return True
+                    t = bl.term
+                    if t[0] == 'call' and (callee(t)[1] or '').split('::')[-1] in ('push', 'extend', 'append', 'insert') and t[3] \
+                            and operand_root(b, t[3][0])[0] == l:
+                        for o in t[3][1:]:
+                            if o[0] in ('c', 'm') and derives(o[1].local, seen):
+                                return True
+                return False
+            empty_returns = []
+            for d in def_sites(b).get(0, []):
+                if d[0] not in region or b.blocks[d[0]].cleanup:
+                    continue
+                ok_def = False
+                if d[1] == 'term':
+                    ok_def = any(o[0] in ('c', 'm') and derives(o[1].local, set()) for o in d[2][3])
+                    line = d[2][7]
+                else:
+                    rv = d[2]
+                    ops_ = [rv[1]] if rv[0] == 'use' else (list(rv[2]) if rv[0] == 'agg' else [])
+                    ok_def = any(o[0] in ('c', 'm') and derives(o[1].local, set()) for o in ops_)
+                    line = None
+                if not ok_def:
+                    empty_returns.append(line)
+            if empty_returns:
+                res.violation(key, b.loc(empty_returns[0]), f'{b.name}: inside the `Call` arm the lowering returns instructions that do not '
+                              f'contain the call instruction it built (line {empty_returns[0]}): the call (e.g. a discarded `Vec.pop`) '
+                              f'disappears from the WebAssembly program while the TypeScript program still performs it')
+            elif emit and cfg.nodes_postdominate(emit, tb.arms[call_v]):
+                res.ok(key, b.loc(), 'every path through the Call arm builds a DirectCall / IndirectCall instruction and returns it')
+            else:
+                res.violation(key, b.loc(), f'{b.name}: some path through the `Call` arm returns without building a call instruction: the '
+                              f'call (e.g. a discarded `Vec.pop`) disappears from the WebAssembly program while the TypeScript '
+                              f'program still performs it')
+    res.floor('Call arms of the wasm statement lowering', n, 1)
+    return [res]
